@@ -37,6 +37,7 @@ type OblResult struct {
 	File    string  `json:"smt_file,omitempty"`
 	Trivial bool    `json:"trivial,omitempty"`
 	Cover   bool    `json:"cover,omitempty"`
+	Info2   bool    `json:"-"`
 	Output  string  `json:"-"`
 	Ground  bool    `json:"-"`
 	Values  map[string]string `json:"-"`
@@ -96,6 +97,8 @@ func cmdDump(args []string) int {
 	return 0
 }
 
+var axiomsVerdict string
+
 func cmdCheck(args []string) int {
 	fs := flag.NewFlagSet("check", flag.ExitOnError)
 	repo := fs.String("repo", "/repo", "repository root")
@@ -107,6 +110,7 @@ func cmdCheck(args []string) int {
 	seedF := fs.Int("seed", -1, "seed")
 	overlayF := fs.String("overlay", "", "JSON file mapping file paths to replacement file paths (mutants)")
 	noEvidence := fs.Bool("no-evidence", false, "do not write evidence file")
+	probeFalse := fs.Bool("probe-false", false, "add an unprovable obligation to every function (vacuity debugging)")
 	fs.Parse(args)
 	t0 := time.Now()
 	seed := 0
@@ -159,6 +163,7 @@ func cmdCheck(args []string) int {
 		return 2
 	}
 	s.noFrame = cfg.NoFrame
+	s.probeFalse = *probeFalse
 	tLoad := time.Since(t0).Seconds()
 
 	// select contracts
@@ -221,13 +226,33 @@ func cmdCheck(args []string) int {
 	prelude := s.pre
 	outDir := filepath.Join(*verif, "out", "smt", *prop)
 	os.RemoveAll(outDir)
+	// axioms-consistent: the quantified prelude used by this property must not be refutable on its own
+	{
+		var all strings.Builder
+		for _, vc := range vcs {
+			for _, it := range vc.items {
+				all.WriteString(it.Text)
+				all.WriteByte('\n')
+			}
+		}
+		q := "(set-logic ALL)\n" + prelude.For(all.String()) + "(check-sat)\n"
+		af, err := writeQuery(outDir, "axioms-consistent", q)
+		if err == nil {
+			ar := runCover(af, 3, seed)
+			if ar.Verdict == "unsat" {
+				fmt.Printf("TOOL-ERROR property=%s the axioms and assumed library facts used by this check are inconsistent (%s, file %s)\n", *prop, ar.Solver, af)
+				return 2
+			}
+			axiomsVerdict = ar.Verdict + " (" + ar.Solver + ")"
+		}
+	}
 	var results []*OblResult
 	for _, vc := range vcs {
 		for i, it := range vc.items {
 			if it.Kind != ItemOblig {
 				continue
 			}
-			r := &OblResult{Func: vc.contract.Pkg + "::" + vc.contract.Key, Name: it.Name, Info: it.Info, vc: vc, idx: i, Cover: strings.HasPrefix(it.Name, "cover:")}
+			r := &OblResult{Func: vc.contract.Pkg + "::" + vc.contract.Key, Name: it.Name, Info: it.Info, vc: vc, idx: i, Cover: strings.HasPrefix(it.Name, "cover:") || strings.HasPrefix(it.Name, "reach:"), Info2: strings.HasPrefix(it.Name, "reach:")}
 			if it.Pos.IsValid() {
 				r.Pos = fmt.Sprintf("%s:%d", strings.TrimPrefix(it.Pos.Filename, *repo+"/"), it.Pos.Line)
 			}
@@ -263,9 +288,14 @@ func cmdCheck(args []string) int {
 			}
 			to := timeout
 			if r.Cover {
-				to = 3
+				to = 2
 			}
-			res, _ := discharge(file, to, seed, all && !r.Cover)
+			var res SolveResult
+			if r.Cover {
+				res = runCover(file, to, seed)
+			} else {
+				res, _ = discharge(file, to, seed, all)
+			}
 			r.Verdict, r.Solver, r.Time, r.Output = res.Verdict, res.Solver, res.Time, res.Output
 			if !r.Cover && r.Verdict != "unsat" && r.Verdict != "sat" {
 				// candidate counterexample search on the ground part of the query
@@ -293,11 +323,21 @@ func cmdCheck(args []string) int {
 	byBackend := map[string]int{}
 	solverTime := 0.0
 	var failed []*OblResult
+	var unreachable []string
 	covers := 0
 	for _, r := range results {
 		solverTime += r.Time
 		if r.Cover {
 			covers++
+			if r.Info2 {
+				if r.Verdict == "unsat" {
+					unreachable = append(unreachable, fmt.Sprintf("%s %s", r.Func, r.Name))
+					if *verbose {
+						fmt.Printf("  UNREACHABLE-RETURN %s :: %s [%s]\n", r.Func, r.Name, r.Pos)
+					}
+				}
+				continue
+			}
 			if r.Verdict == "unsat" {
 				failed = append(failed, r)
 			}
@@ -361,7 +401,7 @@ func cmdCheck(args []string) int {
 	fmt.Printf("property %s: %d functions under contract, %d obligations, %d discharged, %d covers, load %.1fs gen %.1fs wall %.1fs solver %.1fs\n",
 		*prop, len(vcs), total, discharged, covers, tLoad, tGen-tLoad, wall, solverTime)
 	if !*noEvidence && *only == "" && *overlayF == "" {
-		writeEvidence(s, *verif, *prop, *tier, seed, cfg, vcs, results, funcsUnder, trustedBodies, byBackend, solverTime, wall, violations, total, discharged, kf)
+		writeEvidence(s, *verif, *prop, *tier, seed, cfg, vcs, results, funcsUnder, trustedBodies, byBackend, solverTime, wall, violations, total, discharged, kf, unreachable)
 	}
 	if violations > 0 {
 		return 1
